@@ -26,8 +26,9 @@ class DataKinds(Suite):
 
     def gen(self, rng, tier):
         from .c05 import KINDS
-        return [dict(kind=k, empty=e) for k in KINDS for e in (False, True)
-                if not (e and k in ('pandas', 'dir', 'continues'))]
+        return ([dict(kind=k, empty=e) for k in KINDS for e in (False, True)
+                 if not (e and k in ('pandas', 'dir', 'continues'))] +
+                [dict(kind=k, empty=False, big=True) for k in ('listnumpy', 'generated')])
 
     def run_impl(self, case):
         import os, shutil, tempfile
@@ -37,7 +38,7 @@ class DataKinds(Suite):
         old = os.getcwd()
         try:
             os.chdir(tmp)
-            state = dict(run=1, runs=0, fault=None, bad=None, empty=case['empty'])
+            state = dict(run=1, runs=0, fault=None, bad=None, empty=case['empty'], big=case.get('big', False))
             m = make_module(kind, state)
 
             def first():
@@ -158,9 +159,101 @@ class ReadableLinks(Suite):
         return repr(case)
 
 
+ON_DEMAND_SRC = """
+from taskchain import Task, Parameter
+class Raw(Task):
+    def run(self) -> dict:
+        _RUNS.append('raw')
+        return {'raw': 1}
+class Stats(Task):
+    class Meta:
+        input_tasks = [Raw]
+    def run(self, raw) -> dict:
+        _RUNS.append('stats')
+        return {'n': len(raw)}
+class Extra(Task):
+    class Meta:
+        input_tasks = [Raw]
+    def run(self) -> dict:
+        _RUNS.append('extra')
+        return {'x': 1}
+class Report(Task):
+    class Meta:
+        input_tasks = [Raw, Stats, Extra]
+        parameters = [Parameter('with_stats')]
+    def run(self, raw, with_stats) -> dict:
+        _RUNS.append('report')
+        out = {'raw': raw}
+        if with_stats:
+            out['stats'] = self.input_tasks['stats'].value
+        return out
+"""
+
+
+class OnDemandInputs(Suite):
+    """a task that declares more inputs than one run needs: only the inputs named in the signature of run and
+    those the body asks for are computed (runtime check with hand-written tasks; the generated tasks of the
+    histories read every input)"""
+    name = 'inputs_on_demand'
+    model = ''
+
+    def gen(self, rng, tier):
+        return [dict(with_stats=w, again=a) for w in (False, True) for a in (False, True)]
+
+    def run_impl(self, case):
+        import os, shutil, sys, tempfile, types
+        from pathlib import Path
+        from taskchain import Config
+        tmp = tempfile.mkdtemp(prefix='tcverif-c04d-')
+        name = 'tcv_dyn_c04'
+        m = types.ModuleType(name)
+        m.__dict__['_RUNS'] = []
+        sys.modules[name] = m
+        try:
+            exec(compile(ON_DEMAND_SRC, name, 'exec'), m.__dict__)
+            for c in ('Raw', 'Stats', 'Extra', 'Report'):
+                getattr(m, c).__module__ = name
+
+            def chain():
+                return Config(Path(tmp) / 'data', name='cfg', data={'tasks': [m.Raw, m.Stats, m.Extra, m.Report],
+                                                                     'with_stats': case['with_stats']}).chain()
+            ch = chain()
+            v = ch['report'].value
+            out = dict(runs=list(m._RUNS), has={n: bool(t.has_data) for n, t in ch.tasks.items()}, value=v)
+            if case['again']:
+                del m._RUNS[:]
+                ch2 = chain()
+                v2 = ch2['report'].value
+                out['runs_again'] = list(m._RUNS)
+                out['same'] = v2 == v
+            return out
+        finally:
+            sys.modules.pop(name, None)
+            shutil.rmtree(tmp, ignore_errors=True)
+
+    def oracle(self, case, obs):
+        if 'unexpected_exception' in obs:
+            return f'unexpected exception {obs["unexpected_exception"]}: {obs["text"]}'
+        want = ['raw', 'stats', 'report'] if case['with_stats'] else ['raw', 'report']
+        if sorted(obs['runs']) != sorted(want):
+            return (f'with_stats={case["with_stats"]}: requesting `report` ran {obs["runs"]}; needed and missing were {want} '
+                    f'(an input that is declared but not used by this run must not be computed)')
+        if obs['has'].get('extra') or (not case['with_stats'] and obs['has'].get('stats')):
+            return f'with_stats={case["with_stats"]}: results appeared for tasks nobody needed: {obs["has"]}'
+        if case['again'] and (obs['runs_again'] or not obs['same']):
+            return f'with_stats={case["with_stats"]}: a new chain ran {obs["runs_again"]} for the stored `report`'
+        return None
+
+    def nontrivial(self, case, obs):
+        return True
+
+    def key(self, case):
+        return repr(case)
+
+
 class C04(Prop):
     pid = 'C04'
-    suites = [Plain(), Mixed(), DataKinds(), ReadableLinks()]
+    suites = [Plain(), Mixed(), DataKinds(), ReadableLinks(), OnDemandInputs()]
     assumptions = ['one-shot data classes (JSON, in-memory); resumable ContinuesData is re-run by design until finished()']
 
 
